@@ -264,14 +264,35 @@ def run(m: Model, r: Report, tier: str) -> None:
         aug = [s for s in ast.walk(clamp[0]) if isinstance(s, ast.AugAssign)]
         okcl = t.endswith("self.config.end>127") and len(asg) == 1 and m.try_fold(pi.module, asg[0].value) == 0x7F and not aug
     r.check(okcl, "R7", f"{pi.qualname}#seven-bit-limit", "for SecurityAccess an END above 0x7F must be limited to exactly 0x7F (assignment, not masking)", loc=pi.loc)
-    pdus = {}
+    # request PDU forms, by evaluation of their elements over sample identifiers: [service, id] / [service, sub-function, id-high, id-low] / [service, id-high, id-low]
+    from sa import miniterp as _mt10
+    forms = []
     for n in ast.walk(loops[0]) if loops else []:
-        if isinstance(n, ast.Assign) and isinstance(n.value, ast.Call) and ast.unparse(n.value.func) == "bytes":
-            pdus[n.lineno] = ast.unparse(n.value).replace(" ", "")
-    vals = list(pdus.values())
-    r.check(f"bytes([self.config.service,{DIDV}])" in vals, "R7", f"{pi.qualname}#pdu-security-access", f"PDU forms: {vals}", loc=pi.loc)
-    r.check(f"bytes([self.config.service,{SFV},{DIDV}>>8,{DIDV}&255])" in vals, "R7", f"{pi.qualname}#pdu-routine-control", f"PDU forms: {vals}", loc=pi.loc)
-    r.check(f"bytes([self.config.service,{DIDV}>>8,{DIDV}&255])" in vals, "R7", f"{pi.qualname}#pdu-did", f"PDU forms: {vals}", loc=pi.loc)
+        if isinstance(n, ast.Assign) and isinstance(n.value, ast.Call) and ast.unparse(n.value.func) == "bytes" and len(n.value.args) == 1 and isinstance(n.value.args[0], ast.List):
+            shapes = set()
+            for did in (0x1234, 0xABCD, 0x0180, 0xFF00):
+                try:
+                    got = tuple(_mt10.eval_expr(e_, {"self.config.service": "SID", DIDV: did, SFV: "SF"}) for e_ in n.value.args[0].elts)
+                except AnalysisError:
+                    got = None
+                if got is None:
+                    shapes.add("?")
+                    continue
+                sym = []
+                for v_ in got:
+                    sym.append("sid" if v_ == "SID" else "sf" if v_ == "SF" else "id" if v_ == did and did > 0xFF else "hi" if v_ == did >> 8 and did > 0xFF else "lo" if v_ == did & 0xFF and did > 0xFF else "")
+                if did > 0xFF:
+                    shapes.add(" ".join(sym))
+            forms.append((ast.unparse(n.value), shapes))
+    vals = [f"{t} -> {sorted(sh)}" for t, sh in forms]
+    if any("?" in sh for _, sh in forms):
+        r.unrecognised("R7", f"{pi.qualname}#pdu-forms", f"PDU construction outside the evaluated language: {vals}", pi.loc)
+    else:
+        have = {next(iter(sh)) for _, sh in forms if len(sh) == 1}
+        r.check(any(isinstance(n, ast.Assign) and ast.unparse(n.value).replace(" ", "") == f"bytes([self.config.service,{DIDV}])" for n in ast.walk(loops[0])), "R7",
+                f"{pi.qualname}#pdu-security-access", f"PDU forms: {vals}", loc=pi.loc)
+        r.check("sid sf hi lo" in have, "R7", f"{pi.qualname}#pdu-routine-control", f"PDU forms: {vals}; RoutineControl needs [service, sub-function, id high byte, id low byte]", loc=pi.loc)
+        r.check("sid hi lo" in have, "R7", f"{pi.qualname}#pdu-did", f"PDU forms: {vals}; identifier services need [service, id high byte, id low byte]", loc=pi.loc)
     sfl = ast.unparse(loops[0].iter.args[1]) if loops and isinstance(loops[0].iter, ast.Call) and len(loops[0].iter.args) == 2 else "sub_functions"
     rc = [n for n in walk_no_nested(pi.node) if isinstance(n, ast.Assign) and ast.unparse(n.targets[0]) == sfl and "RoutineControlSubFuncs" in ast.unparse(n.value)]
     r.check(len(rc) == 1, "R7", f"{pi.qualname}#routine-sub-functions", "RoutineControl must be scanned for every RoutineControlSubFuncs member", loc=pi.loc)
